@@ -68,6 +68,17 @@ def c_meaning(e, env: trees.Env):
                 return ("bool", r if op == "==" else bnot(r), safe, acc)
             return ("bool", icmp(op, _int(ta, a), _int(tb, b)), safe, acc)
         raise HarnessError(f"C operator {op}")
+    if t is c_ast.UnaryOp and e.op == "-":
+        ta, a, sa, aa = c_meaning(e.expr, env)
+        if ta == "double":
+            return ("double", env.fsub(Fraction(0), a) if not isinstance(a, Fraction) else -a, sa, aa)
+        a = _int(ta, a)
+        if isinstance(a, int):
+            return ("int", -a, sa, aa)
+        v, safe = env.int_result(isub(0, a), sa)
+        return ("int", v, safe, aa)
+    if t is c_ast.UnaryOp and e.op == "+":
+        return c_meaning(e.expr, env)
     if t is c_ast.TernaryOp:
         tc, c, sc, ac = c_meaning(e.cond, env)
         ta, a, sa, aa = c_meaning(e.iftrue, env)
